@@ -144,21 +144,30 @@ theorem nxtOf_shape {c : Circ} {fl : File} {net : Net} {names : List String} (or
   obtain ⟨p, _, rfl⟩ := hc
   rw [simRow_length, sNodes_bridge h, List.length_map]
 
-/-- row ↦ node: the `r`-th element of the netlist's `s_nodes` is the node named `x` -/
-theorem row_node {c : Circ} {net : Net} {names : List String} (h : compatB c net names = true) {x : String}
-    (hx : x ∈ c.sNodes) :
-    ∃ n, net.sNodes[c.sNodes.idxOf x]? = some n ∧ nameAt names n = x ∧ c.sNodes.idxOf x < net.sNodes.length := by
+/-- row ↦ node: if row `r` of the STIL interface carries the name `x`, the `r`-th element of the netlist's `s_nodes` is a node named `x` -/
+theorem row_node_at {c : Circ} {net : Net} {names : List String} (h : compatB c net names = true) {x : String} {r : Nat}
+    (hg : c.sNodes[r]? = some x) :
+    ∃ n, net.sNodes[r]? = some n ∧ nameAt names n = x ∧ r < net.sNodes.length := by
   have hb := sNodes_bridge h
-  have hlt : c.sNodes.idxOf x < c.sNodes.length := List.idxOf_lt_length_iff.2 hx
+  have hlt : r < c.sNodes.length := (List.getElem?_eq_some_iff.1 hg).1
   have hlen : c.sNodes.length = net.sNodes.length := by rw [hb, List.length_map]
-  have hg := idxOf_get hx
   rw [hb, List.getElem?_map] at hg
-  rw [← hb] at hg
-  cases hn : net.sNodes[c.sNodes.idxOf x]? with
+  cases hn : net.sNodes[r]? with
   | none => rw [hn] at hg; cases hg
   | some n =>
     rw [hn] at hg
     exact ⟨n, rfl, by simpa using hg, by omega⟩
+
+/-- … for the row of a scan cell / of a port (by role, audit finding 2) -/
+theorem row_node {c : Circ} {net : Net} {names : List String} (h : compatB c net names = true) {x : String}
+    (hx : x ∈ c.sNodes) :
+    ∃ n, net.sNodes[c.cellRow x]? = some n ∧ nameAt names n = x ∧ c.cellRow x < net.sNodes.length :=
+  row_node_at h (cellRow_get hx)
+
+theorem row_node_port {c : Circ} {net : Net} {names : List String} (h : compatB c net names = true) {x : String}
+    (hx : x ∈ c.sNodes) :
+    ∃ n, net.sNodes[c.portRow x]? = some n ∧ nameAt names n = x ∧ c.portRow x < net.sNodes.length :=
+  row_node_at h (portRow_get hx)
 
 /-- **the simulation result is THE labelling consistent with the netlist** for the stimulus of one init column (instance of
     `C02.sim8_netlist_all_circuits`), hence every consistent labelling gives the captured rows -/
